@@ -141,7 +141,18 @@ def r_every_reference_is_patched(r, prog):
         r.ok('apply_patches walks patches and nodes in lock step (zip)')
     else:
         r.finding('patch-node-pairing', ap.span, 'apply_patches does not zip the patches with the AST nodes')
-    r.floor(18)
+    # ... and nothing reorders or thins out a list of patches between the two passes: patch j was computed for the j-th node (and, inside a
+    # BaseInterfaces patch, for the j-th base as written), and that position is all that ties a resolved definition to its reference
+    REORDER = re.compile(r'^(sort(_unstable)?(_by(_key|_cached_key)?)?|reverse|rev|swap(_remove)?|rotate_(left|right)|retain(_mut)?|dedup(_by(_key)?)?|remove|truncate|drain|pop|skip|step_by|split_off|insert)$')
+    fns = [f for f in prog.fns.values() if f.path == ap.path or f.path.startswith(ap.path + '::{closure') or f.path == cp.path or f.path.startswith(cp.path + '::{closure')]
+    bad = [(f, c) for f in fns for c in f.calls() if REORDER.match(c.name()) and not f.blocks[c.bb].get('cleanup')]
+    if bad:
+        for f, c in bad:
+            r.finding('patch-list-reordered:%s' % c.name(), c.span, '%s calls %s on %s: patches are matched to the references they were computed for by position only, a reordered or shortened list binds references to the wrong definitions' % (
+                f.path.rsplit('::', 1)[-1], c.name(), vexpr(f, c.args[0])[:80] if c.args else '?'))
+    else:
+        r.ok('no list of patches is reordered or shortened between compute_patches and apply_patches (%d functions looked at)' % len(fns))
+    r.floor(19)
 
 
 def r_lookup_scope(r, prog):
@@ -237,6 +248,94 @@ def r_lookup_algorithm(r, prog):
     r.floor(5)
 
 
+def variant_int_table(prog, fn, adt_pat):
+    """{variant name: integer constant returned for it} for a function that is one match on an `adt_pat` value with constant arms; None
+    when some arm does anything else"""
+    from mirlib import const_int
+    sws = enum_switches(fn, adt_pat)
+    if len(sws) != 1 or sws[0]['bb'] != 0:
+        return None
+    sw = sws[0]
+    out = {}
+    for vi, v in enumerate(prog.adts[sw['adt']]['variants']):
+        b = fn.blocks[arm(sw, vi)]
+        vals = [const_int(s['rv']['a']) for s in b['s'] if 'lhs' in s and s['lhs']['l'] == 0 and is_bare(s['lhs']) and s['rv']['k'] == 'use']
+        nxt = b['t']
+        if len(vals) != 1 or vals[0] is None or nxt['k'] not in ('goto', 'return') or [c for c in fn.calls() if c.bb == arm(sw, vi)]:
+            return None
+        if nxt['k'] == 'goto' and (fn.blocks[nxt['t']]['s'] or fn.blocks[nxt['t']]['t']['k'] != 'return'):
+            return None
+        out[v['n']] = vals[0]
+    return out
+
+
+def registration_policy(prog):
+    """How Ast::add_named_element decides between the element it adds and the element already registered under the same scoped name.
+    Returns dict(keeps=f(kind of the registered element, kind of the new element) -> bool, form=str), or None when the function does not
+    have one of the recognised shapes: the name registered is parser_scoped_identifier() of the element, the index is elements.len(), the
+    element itself is pushed onto `elements` next (nothing else in between), and the registration is skipped only on the true edge of
+    `lookup_table.get(<that name>).is_some_and(<test of the entry found>)` (or of the same test written as a match)."""
+    import guards as _g
+    from mirlib import const_int
+    A = 'slicec::ast::Ast'
+    NODE = 'slicec::ast::node::Node'
+    ane = prog.fn(A + '::add_named_element')
+    live = lambda c: not ane.blocks[c.bb].get('cleanup')
+    ins = [c for c in ane.calls() if c.name() == 'insert' and live(c)]
+    if len(ins) != 1 or 'parser_scoped_identifier(' not in vexpr(ane, ins[0].args[1]) or vexpr(ane, ins[0].args[2]) != 'len(arg1.elements)' or vexpr(ane, ins[0].args[0]) != 'arg1.lookup_table':
+        return None
+    key = vexpr(ane, ins[0].args[1])
+    if key != 'parser_scoped_identifier(borrow(arg2))':
+        return None
+    # the element is what is pushed, on every path, and nothing is pushed before the registration
+    adds = [c for c in ane.calls() if live(c) and ((c.name() == 'add_element' and vexpr(ane, c.args[0]) == 'arg1' and vexpr(ane, c.args[1]) == 'arg2')
+                                                  or (c.name() == 'push' and vexpr(ane, c.args[0]) == 'arg1.elements' and vexpr(ane, c.args[1]) == 'into(arg2)'))]
+    others = [c for c in ane.calls() if live(c) and c not in adds and c.name() in ('push', 'add_element', 'insert', 'remove', 'swap_remove', 'truncate', 'clear', 'pop', 'extend')
+              and c is not ins[0]]
+    if len(adds) != 1 or others or not must_pass(ane, 0, ane.return_blocks(), [adds[0].bb]):
+        return None
+    if ins[0].bb in ane.reachable(adds[0].bb):
+        return None
+    brs = branches_on_call(ane, lambda c: c.name() == 'is_some_and' and vexpr(ane, c.args[0]) == 'get(arg1.lookup_table,%s)' % key)
+    if not brs and branches_on_call(ane, lambda c: c.name() == 'is_some_and' and 'get(arg1.lookup_table,' in vexpr(ane, c.args[0])):
+        return None
+    if not brs:
+        # the test written without a closure (a match on the looked-up entry): the blocks from which the registration can no longer be
+        # reached are entered only on edges that require the entry found under this very name to be a primitive
+        reach_ins = {b for b in range(len(ane.blocks)) if ins[0].bb in ane.reachable(b)}
+        skip_entries = [b for b in ane.reachable(0) if b not in reach_ins and not ane.blocks[b].get('cleanup') and not ane.dominates(ins[0].bb, b) and ane.blocks[b]['t']['k'] != 'unreachable'
+                        and any(q in reach_ins for q in ane.preds().get(b, []))]
+        if skip_entries and all(any(re.match(r"^index\(arg1\.elements,get\(arg1\.lookup_table,parser_scoped_identifier\(borrow\(arg2\)\)\) as Some\.0\) is Primitive$", g)
+                                    for g in _g.guard_set(prog, ane, b)) for b in skip_entries):
+            return {'keeps': lambda e, n: e == 'Primitive', 'form': 'only a primitive type keeps its entry'}
+        return None
+    if len(brs) != 1 or not must_pass(ane, brs[0]['false'], ane.return_blocks(), [ins[0].bb]) or not ane.dominates(brs[0]['bb'], ins[0].bb):
+        return None
+    cl = closure_of_arg(prog, ane, brs[0]['call'].args[1])
+    if cl is None:
+        return None
+    cap = vexpr(ane, brs[0]['call'].args[1])
+    ret = vexpr(cl, {'cp': {'l': 0}})
+    if cap == 'closure(arg1.elements)':
+        ones = [bb for bb, j, lhs, rv, st in cl.assigns() if lhs['l'] == 0 and is_bare(lhs) and rv['k'] == 'use' and const_int(rv['a']) == 1]
+        if ones and all(any(re.search(r'^index\(arg1\.0,arg2\) is Primitive$', g) for g in _g.guard_set(prog, cl, bb)) for bb in ones):
+            return {'keeps': lambda e, n: e == 'Primitive', 'form': 'only a primitive type keeps its entry'}
+        return None
+    if cap == 'closure(arg1.elements,into(arg2))':
+        m = re.match(r'^(Gt|Ge|Lt|Le)\((\w+)\(index\(arg1\.0,arg2\)\),(\w+)\(arg1\.1\)\)$', ret)
+        if not m or m.group(2) != m.group(3) or [c for c in cl.calls() if c.name() not in ('index', m.group(2))]:
+            return None
+        rank_calls = [c for c in cl.calls() if c.name() == m.group(2)]
+        rf = prog.fns.get(rank_calls[0].resolved) if rank_calls else None
+        tab = variant_int_table(prog, rf, NODE) if rf is not None else None
+        if tab is None:
+            return None
+        import operator
+        cmp = {'Gt': operator.gt, 'Ge': operator.ge, 'Lt': operator.lt, 'Le': operator.le}[m.group(1)]
+        return {'keeps': lambda e, n: cmp(tab[e], tab[n]), 'form': '%s(%s(registered), %s(new)) with %s' % (m.group(1), m.group(2), m.group(2), ', '.join('%s=%d' % kv for kv in sorted(tab.items(), key=lambda kv: (-kv[1], kv[0])))), 'table': tab}
+    return None
+
+
 def r_name_table_single_writer(r, prog):
     A = 'slicec::ast::Ast'
     n = 0
@@ -271,36 +370,17 @@ def r_name_table_single_writer(r, prog):
             r.ok('add_element::<%s> (not a NamedSymbol) in %s' % (t.rsplit('::', 1)[-1], c.fn.path.rsplit('::', 1)[-1]))
     ane = prog.fn(A + '::add_named_element')
     ins = [c for c in ane.calls() if c.name() == 'insert']
-    # the element is registered on every path but one: the name is already that of a primitive type (only possible for an element of a file
-    # without a module declaration; the parser looks the primitives up by name, so they keep their entries)
-    def registered_unless_primitive():
-        import guards as _g
-        from mirlib import const_int
-        key = vexpr(ane, ins[0].args[1])
-        # the entry that is tested is the one under the very name about to be registered (not the bare identifier, not anything else)
-        brs = branches_on_call(ane, lambda c: c.name() == 'is_some_and' and vexpr(ane, c.args[0]) == 'get(arg1.lookup_table,%s)' % key)
-        if not brs and branches_on_call(ane, lambda c: c.name() == 'is_some_and' and 'get(arg1.lookup_table,' in vexpr(ane, c.args[0])):
-            return False
-        if not brs:
-            # the same test written without a closure (a match on the looked-up entry): the blocks from which the registration can no longer
-            # be reached are entered only on edges that require the entry found under this very name to be a primitive
-            reach_ins = {b for b in range(len(ane.blocks)) if ins[0].bb in ane.reachable(b)}
-            skip_entries = [b for b in ane.reachable(0) if b not in reach_ins and not ane.blocks[b].get('cleanup') and not ane.dominates(ins[0].bb, b) and ane.blocks[b]['t']['k'] != 'unreachable'
-                            and any(q in reach_ins for q in ane.preds().get(b, []))]
-            return bool(skip_entries) and all(any(re.match(r"^index\(arg1\.elements,get\(arg1\.lookup_table,parser_scoped_identifier\(borrow\(arg2\)\)\) as Some\.0\) is Primitive$", g)
-                                                  for g in _g.guard_set(prog, ane, b)) for b in skip_entries)
-        if len(brs) != 1 or not must_pass(ane, brs[0]['false'], ane.return_blocks(), [ins[0].bb]) or not ane.dominates(brs[0]['bb'], ins[0].bb):
-            return False
-        cl = closure_of_arg(prog, ane, brs[0]['call'].args[1])
-        if cl is None or vexpr(ane, brs[0]['call'].args[1]) != 'closure(arg1.elements)':
-            return False
-        ones = [bb for bb, j, lhs, rv, st in cl.assigns() if lhs['l'] == 0 and is_bare(lhs) and rv['k'] == 'use' and const_int(rv['a']) == 1]
-        return bool(ones) and all(any(re.search(r'^index\(arg1\.0,arg2\) is Primitive$', g) for g in _g.guard_set(prog, cl, bb)) for bb in ones)
-    if ins and 'parser_scoped_identifier(' in vexpr(ane, ins[0].args[1]) and vexpr(ane, ins[0].args[2]) == 'len(arg1.elements)' \
-            and registered_unless_primitive():
-        r.ok('the name registered is parser_scoped_identifier() and the index is that of the element about to be pushed (a primitive type keeps its entry)')
+    pol = registration_policy(prog)
+    kinds = sorted({c.targs[0].rsplit('::', 1)[-1] for c in prog.callers_of(A + '::add_named_element') if c.targs and c.targs[0] != 'T'})
+    if len(kinds) < 9:
+        raise AnchorMissing('instantiations of add_named_element (found %s)' % kinds)
+    # the element is registered whenever its name is vacant, and otherwise unless the element found under the name takes precedence over
+    # it by kind; a primitive type takes precedence over everything (only possible for an element of a file without a module declaration;
+    # the parser looks the primitives up by name and unwraps, so they keep their entries), and no kind gives way to itself
+    if pol is not None and all(pol['keeps']('Primitive', k) for k in kinds) and not any(pol['keeps'](k, k) and pol['keeps'](k2, k) and pol['keeps'](k, k2) for k in kinds for k2 in kinds if k != k2):
+        r.ok('the name registered is parser_scoped_identifier() and the index is that of the element pushed next; an entry is kept only when its kind takes precedence (%s); a primitive type always keeps its entry' % pol['form'])
     else:
-        r.finding('name-registration', ane.span, 'add_named_element does not register parser_scoped_identifier() -> elements.len() on every path but the one where the name is held by a primitive type (which must keep its entry: the parser unwraps the lookup of a primitive)')
+        r.finding('name-registration', ane.span, 'add_named_element does not register parser_scoped_identifier() -> index of the element it pushes on every path but those where the name is held by an element whose kind takes precedence, a primitive type always taking precedence (it must keep its entry: the parser unwraps the lookup of a primitive)')
     fld = [f for f in prog.adts[A]['variants'][0]['fields'] if f['n'] == 'lookup_table'][0]
     if fld['vis'] != 'pub' and 'Public' not in (ane.vis or ''):
         r.ok('lookup_table is private and add_named_element is not public')
